@@ -29,6 +29,13 @@ func init() {
 }
 
 func runC04(w *World, r *Report) {
+	// what the interpreter is given to execute: selection and merge of the matched flows (C03.R9)
+	r.Borrow(w, func(w *World, r *Report) {
+		c03ReadOnlySelection(w, r)
+		c03ExtendKeepsKinds(w, r)
+		hrFilterResultGetters(w, r, "R9")
+	}, map[string]string{"R9": "R6"})
+	hrMeasureReturnsError(w, r, "R1")
 	ef := w.Fn(pkgStream, "Stream.ExecuteFlow")
 	if ef == nil {
 		r.Undec("R1", "stream.ExecuteFlow", token.NoPos, "function not found")
